@@ -62,7 +62,7 @@ static void check_format(const format *f)
 	vf_count("monitor:format-fields", 1);
 }
 
-uint64_t vf_cases(void) { return vf_thorough ? 2000000 : 150000; }
+uint64_t vf_cases(void) { return vf_thorough ? 2000000 : 120000; }
 
 void vf_case(uint64_t idx, vf_rng *r)
 {
